@@ -5,6 +5,7 @@
 From OV Require Import Base.Strs Gen.LexerGen Lex.Lexer Lex.Progress.
 From OV Require Import Tools.ExnFlowLang Tools.ExnFlowLoops Gen.ParserLoopsGen Gen.ExnFlowGen Tools.ExnFlowPinsParser
   Tools.ExnFlowLoopsObl Tools.ExnFlow.
+From OV Require Tools.ExnFlowEject Proj.Ast Proj.Convert.
 
 (* ---- lexer: progress, termination within the fuel, error kinds (faithful model Lex/Lexer.v) ------------ *)
 (* every iteration of the scanner loop that continues has consumed at least one character *)
@@ -82,15 +83,41 @@ Theorem C20_no_escape_helpers_modulo_may_raise :
 Proof. exact no_escape_helpers. Qed.
 
 (* the full statement (nothing escapes any tool) is false of the faithful structure: findings
-   C20-eject-json-holographic / -nested-meta, C20-gbnf-contract-nonstring-type,
-   C20-write-baseline-foreign-exception (through C20-lexer-int-digit-limit), C20-path-name-too-long *)
+   C20-gbnf-contract-nonstring-type, C20-write-baseline-foreign-exception (through C20-lexer-int-digit-limit),
+   C20-path-name-too-long.  (C20-eject-json-holographic / -nested-meta were repaired by 88905cd: see
+   C20_eject_json_no_escape below.) *)
 Definition C20_no_escape_full : Prop := no_escape_full.
 Theorem C20_no_escape_full_refuted : ~ no_escape_full.
 Proof. exact no_escape_full_refuted. Qed.
 Theorem C20_validate_path_exists_refuted : no_escape (L "validate") flow_validate_sites flow_validate_raises = false.
 Proof. exact no_escape_validate_refuted. Qed.
-Theorem C20_eject_json_refuted : no_escape (L "eject") flow_eject_sites flow_eject_raises = false.
+(* eject as a whole is still refuted -- by the META.CONTRACT route of format=gbnf only ... *)
+Theorem C20_eject_gbnf_contract_refuted : no_escape (L "eject") flow_eject_sites flow_eject_raises = false.
 Proof. exact no_escape_eject_refuted. Qed.
+Theorem C20_eject_only_escape_is_gbnf_contract :
+  escapes (L "eject") (flow_eject_sites ++ flow_eject_raises)%list =
+  [(L "compile_gbnf_from_meta", 0%N, L "TypeError"); (L "compile_gbnf_from_meta", 0%N, L "AttributeError")].
+Proof. exact eject_only_escape_is_gbnf_contract. Qed.
+(* ... POSITIVE since repair 88905cd (was C20_eject_json_refuted): setting that one call aside, NOTHING escapes
+   octave_eject -- in particular not json.dumps(data) *)
+Theorem C20_eject_json_no_escape :
+  no_escape (L "eject") (filter not_gbnf_contract flow_eject_sites) flow_eject_raises = true.
+Proof. exact no_escape_eject_json. Qed.
+(* the json.dumps site has no handler; it is benign by its argument: (1) still uncovered syntactically, absent from
+   `escapes`; (2) it is the only json.dumps of execute() and is applied to _ast_to_dict(result.filtered_doc) (generated
+   provenance); (3) the model of _ast_to_dict yields native values only, for every document (C14_dict_native) *)
+Theorem C20_eject_json_dumps_unprotected_but_benign :
+  existsb (fun u => str_eqb (fst (fst u)) (L "json.dumps") && N.eqb (snd (fst u)) 0 && str_eqb (snd u) (L "TypeError"))
+          (uncovered_of flow_eject_sites) = true /\
+  existsb (fun u => str_eqb (fst (fst u)) (L "json.dumps")) (escapes (L "eject") (flow_eject_sites ++ flow_eject_raises)%list) = false.
+Proof. exact eject_json_dumps_unprotected_but_benign. Qed.
+Theorem C20_eject_json_dumps_argument :
+  flow_eject_json_dumps_args = [(0%N, L "_ast_to_dict(result.filtered_doc)")] /\
+  List.length (filter (fun s => str_eqb (s_callee s) (L "json.dumps")) flow_eject_sites) = 1%nat.
+Proof. exact eject_json_dumps_argument. Qed.
+Theorem C20_eject_json_argument_native :
+  forall d : OV.Proj.Ast.doc, OV.Proj.Convert.native_dict (OV.Proj.Convert.ast_to_dict d) = true.
+Proof. exact OV.Tools.ExnFlowEject.eject_json_argument_native. Qed.
 Theorem C20_write_baseline_reparse_refuted : no_escape (L "write") flow_write_sites flow_write_raises = false.
 Proof. exact no_escape_write_refuted. Qed.
 Theorem C20_compile_grammar_contract_refuted :
